@@ -131,6 +131,10 @@ func (r *FnRun) initialGlobal(st *State, g *ssa.Global) Val {
 		r.declareGlobal(name, srt)
 		if types.Identical(elem, types.Universe.Lookup("error").Type()) {
 			fmt.Fprintf(&r.prelude, "(assert (> %s 0))\n", name)
+			if r.decl["top0"] {
+				// created during package initialisation, before the function was entered
+				fmt.Fprintf(&r.prelude, "(assert (<= %s top0))\n", name)
+			}
 			for _, o := range r.e.errGlobals(r) {
 				if o != name {
 					fmt.Fprintf(&r.prelude, "(assert (not (= %s %s)))\n", name, o)
